@@ -187,6 +187,10 @@ type Case struct {
 	Family string   `json:"family"`
 	Pass   string   `json:"pass"`
 	Script []lbStep `json:"script"`
+	// send-loop cases (kind "loop": L messages, per-call acceptance counts, 0 = the call fails)
+	// and the fault-injecting wire passes
+	Oracle []int `json:"oracle"`
+	OutIdx []int `json:"outidx"`
 
 	gal string
 }
@@ -200,9 +204,11 @@ func (c Case) MarshalJSON() ([]byte, error) {
 	case "recv":
 		m["L"], m["first"], m["buflen"], m["slots"], m["expect"] = c.L, c.First, c.BufLen, c.Slots, c.Expect
 		m["nret"], m["status"], m["outn"] = c.NRet, c.Status, c.OutN
+	case "loop":
+		m["L"], m["oracle"], m["status"], m["outidx"] = c.L, c.Oracle, c.Status, c.OutIdx
 	default:
 		m["family"], m["pass"], m["sizes"], m["caps"] = c.Family, c.Pass, c.Sizes, c.Caps
-		m["sticky"], m["script"] = c.Sticky, c.Script
+		m["sticky"], m["script"], m["oracle"] = c.Sticky, c.Script, c.Oracle
 	}
 	return json.Marshal(m)
 }
@@ -1211,6 +1217,7 @@ type lbFailure struct {
 	FirstDiff int    `json:"first_diff"`
 	Error     string `json:"error"`
 	Sticky    bool   `json:"sticky,omitempty"` // endpoint carried a sticky source (wire passes)
+	Oracle    []int  `json:"oracle,omitempty"` // wire_partial: messages accepted per WriteBatch call
 	// sequential passes: the steps up to and including the failing one
 	Script []lbStep `json:"script,omitempty"`
 }
@@ -1696,9 +1703,11 @@ func runLoopback(seed int64, nb int, withF4 bool) (map[string]any, map[string]an
 
 // replayAnyLoopback dispatches loopback cases to the pair, wire and pool drivers.
 func replayAnyLoopback(cs []*Case) map[string]any {
-	var pair, other []*Case
+	var pair, other, inject []*Case
 	for _, c := range cs {
-		if strings.HasPrefix(c.Pass, "wire_") || strings.HasPrefix(c.Pass, "pool_") {
+		if c.Pass == "wire_partial" || c.Pass == "wire_eio" {
+			inject = append(inject, c)
+		} else if strings.HasPrefix(c.Pass, "wire_") || strings.HasPrefix(c.Pass, "pool_") {
 			other = append(other, c)
 		} else {
 			pair = append(pair, c)
@@ -1709,6 +1718,9 @@ func replayAnyLoopback(cs []*Case) map[string]any {
 		lb = replayLoopback(pair)
 	}
 	for k, v := range replayLoopback2(other) {
+		lb[k] = v
+	}
+	for k, v := range replayLoopback3(inject) {
 		lb[k] = v
 	}
 	return lb
@@ -1824,6 +1836,8 @@ func run(c *Case) bool {
 		runSend(c)
 	case "recv":
 		runRecv(c)
+	case "loop":
+		return runLoop(c)
 	default:
 		return false
 	}
@@ -1919,10 +1933,16 @@ func main() {
 		for i := 0; i < *n; i++ {
 			take(genSend(r, i))
 			take(genRecv(r, i))
+			if i%2 == 0 {
+				take(genLoop(r, i/2))
+			}
 		}
 		if *loopback {
 			lb, f4 := runLoopback(*seed, *lbatches, !*nof4)
 			for k, v := range runLoopback2(*seed, *lbatches) {
+				lb[k] = v
+			}
+			for k, v := range runLoopback3(*seed, *lbatches) {
 				lb[k] = v
 			}
 			if len(lbCases) > 0 {
